@@ -114,3 +114,34 @@ fn rx_trim_front() {
     assert!(v.len() == len - m, "C01-D1 trimming must shorten the view");
     assert!(v.data_start.as_ptr() as usize + v.len() <= buf.as_ptr() as usize + len, "view stays inside the data area");
 }
+
+// NOTE: harnesses that call `next()` twice (symbolic or concrete second offset) do not finish in CBMC within 10 minutes and were
+// removed; the contract of the second and later items ("starts right after the previous datagram, stops after the one without
+// 'more follows'") is therefore an ASSUMED contract of the network prelude used by the tx_rx / is_state proofs (listed there).
+
+//@h name=rx_pdu_iter_first props=C01,C07,C10 fn=src/pdu_loop/frame_element/received_frame.rs::ReceivedPduIter::next obligation="first next() of into_pdu_iter() on ANY buffer contents: None iff the frame is empty; Some(Ok(v)) views exactly the first datagram's data area (offset 10, length = its length field, inside the PDU area) with the counter that follows it; otherwise Some(Err); never a panic"
+#[cfg_attr(kani, kani::proof)]
+#[cfg_attr(all(test, verif_replay), test)]
+fn rx_pdu_iter_first() {
+    let e = any_slot(FrameState::RxProcessing);
+    let idx = AtomicU8::new(0);
+    let f = ReceivedFrame::new(FrameBox::new(NonNull::from(&e).cast(), &idx, DATA));
+    let area_len = DATA - 16;
+    let a = pdu_area(&e);
+    let used = e.pdu_payload_len;
+    let mut it = f.into_pdu_iter();
+    let l0 = (u16::from_le_bytes([a[6], a[7]]) & 0x07ff) as usize;
+    let first = it.next();
+    match first {
+        None => assert!(used == 0),
+        Some(Ok(v)) => {
+            assert!(used != 0);
+            assert!(10 + l0 + 2 <= area_len, "first view lies inside the PDU area");
+            assert!(v.data_start.as_ptr() as *const u8 == a[10..].as_ptr() && v.len() == l0);
+            assert!(v.working_counter == u16::from_le_bytes([a[10 + l0], a[10 + l0 + 1]]));
+            core::mem::forget(v);
+        }
+        Some(Err(_)) => assert!(used != 0),
+    }
+    core::mem::forget(it);
+}
